@@ -107,6 +107,9 @@ VH_DRIVER(query){
       int req=-7; int rc=uriComposeQueryCharsRequiredExA(nodes.data(),&req,URI_TRUE,nb?URI_TRUE:URI_FALSE);
       std::vector<std::string> ji; for(auto&it:items) ji.push_back("["+std::to_string(it[0])+","+std::to_string(it[1])+","+std::to_string(it[2])+"]");
       long long r= req<0? 0 : req;
-      g.event(J().str("e","ComposeReqBoundary").boo("nb",nb).num("d",d).raw("items",jlist(ji)).num("rc",rc).boo("nonneg",req>=0).num("reqhi",r>>20).num("reqlo",r&(M-1)).done()); g.count("boundary"+std::to_string(nb*100+lastval*10+d),true); } }
+      g.event(J().str("e","ComposeReqBoundary").boo("nb",nb).num("d",d).raw("items",jlist(ji)).num("rc",rc).boo("nonneg",req>=0).num("reqhi",r>>20).num("reqlo",r&(M-1)).done()); g.count("boundary"+std::to_string(nb*100+lastval*10+d),true);
+      // the allocating variant when the figure is INT_MAX or beyond: the terminator no longer fits an int - refused, nothing handed out
+      if(d>=0){ char*out=(char*)0x1; int rcm=uriComposeQueryMallocExA(&out,nodes.data(),URI_TRUE,nb?URI_TRUE:URI_FALSE);
+        g.event(J().str("e","ComposeMallocBoundary").boo("nb",nb).num("d",d).raw("items",jlist(ji)).num("rc",rcm).boo("untouched",out==(char*)0x1||out==nullptr).done()); if(rcm==URI_SUCCESS&&out&&out!=(char*)0x1) free(out); } } }
   return 0;
 }
